@@ -24,7 +24,7 @@ NAME_ALPHA = text.ALNUM + "._+"
 VR_ALPHA = text.ALNUM + "._+~^"
 CLASSES = ["epoch-absent", "epoch-zero", "epoch-one", "epoch-multi-digit", "epoch-leading-zeros", "epoch-huge",
            "name-single", "name-multi", "name-digit-segment", "name-last-segment-digits", "name-version-like-tail",
-           "prefix-none", "prefix-plain", "prefix-dashed-dotted", "prefix-absolute", "prefix-with-colon",
+           "prefix-none", "prefix-plain", "prefix-dashed-dotted", "prefix-absolute", "prefix-with-colon", "dot-rpm-inside",
            "suffix-rpm", "suffix-none", "release-dotted", "release-dist-tag", "version-tilde-caret",
            "arch-src", "arch-noarch", "vr-edge-dots"]
 CLASS_FLOORS = dict((c, 20) for c in CLASSES)
@@ -97,6 +97,19 @@ def gen_case(rng, force=None):
         p = rng.choice(["/", "/mnt/koji-1/packages/", "//x-1/"])
     elif force == "prefix-with-colon" or (force is None and rng.random() < 0.05):
         p = rng.choice(["http://host/dir/", "rsync://host:873/pkgs/", "buildhost:/srv/", "C:/rpms/", "/snap/2019-01-01T10:30:00/", "a:b/"])
+    if force == "dot-rpm-inside" or (force is None and rng.random() < 0.04):
+        # '.rpm' somewhere INSIDE the string (a name, a release tag, a directory) is ordinary text; only a trailing one is the
+        # file name suffix
+        where = rng.choice(["name", "release", "prefix", "version"])
+        if where == "name":
+            c["name"] = rng.choice(["python3.rpm-macros", "lib.rpmbuild", "x.rpm"]) + ("-" + c["name"] if rng.random() < 0.5 else "")
+        elif where == "release":
+            c["release"] = rng.choice(["3.rpmfusion", "1.rpm.el7", "0.rpm"])
+        elif where == "version":
+            c["version"] = rng.choice(["1.rpm2", "4.rpm"])
+        else:
+            p = rng.choice(["updates.rpms/", "repo.rpm/x/", "a-1-2.i686.rpm.d/"])
+        c["dot_rpm_inside"] = True
     c["prefix"] = p
     s = rng.choice(["", ".rpm"])
     if force == "suffix-rpm":
@@ -139,6 +152,8 @@ def classify(c):
         out.append("name-last-segment-digits")
     if len(segs) > 2 and segs[-2][:1].isdigit() and segs[-1][:1].isdigit():
         out.append("name-version-like-tail")
+    if c.get("dot_rpm_inside"):
+        out.append("dot-rpm-inside")
     p = c["prefix"]
     if ":" in p:
         out.append("prefix-with-colon")
